@@ -106,6 +106,15 @@ CHECKS = {
             "bounded: words <= 6 / 7 units, all 2^(n-1) schedules; words outside the maximal-munch class only as pinned witnesses "
             "(finding F18); chart-level conformance (Earley.tla) is not part of this check",
             "TLC-enumerated feeding schedules and TLC-enumerated languages replayed into the real incremental parser"),
+    "C14": ("translation_validation",
+            "programs = spec texts; IndentLexer.tla states the layout algorithm both hand-written lexer bases implement and TLC "
+            "evaluates it on every enumerated line structure; the NEWLINE/INDENT/DEDENT stream of the Python lexer and the layout "
+            "leaves of the parse trees of BOTH front ends must equal the specification's stream; every text of the corpus (shipped "
+            ".fan files, generated families, token-level perturbations, valid and invalid) goes through both front ends: both "
+            "reject, or both accept with identical grammar, constraints, Python code and generators",
+            "bounded: def header + <= 2 / 3 lines of 16 kinds (714 / ~11k structures), 212 / ~6.5k corpus texts; the C++ module is "
+            "rebuilt from the working tree (cmake+make, cached by source hash) and loaded instead of the prebuilt one",
+            "TLA+ layout specification evaluated by TLC and compared with both lexers + differential validation of the two readers"),
     "C15": ("translation_validation",
             "programs = rule bodies, literals, annotated/generator specs and constraints; SpecPrint.tla enumerates every rule body to "
             "depth 2 over all operators (3279) plus seeded deeper ones; each is read by the real front end, printed with repr(grammar), "
